@@ -20,8 +20,8 @@ Section C03.
      a version whose dependencies are unavailable), derived nodes entailed by their causes *)
   Theorem nosolution_tree_is_proof_partial :
     reg_wf O L reg -> (forall a b, veqb a b = true -> a = b) ->
-    forall fuel tr t st log,
-      WellBehaved O reg tr -> resolve O veqb fuel r rv tr = (ONoSolution t, st, log) ->
+    forall fuel tr t st log k,
+      WellBehaved O reg tr -> resolve O veqb fuel r rv tr = (ONoSolution t, st, log, k) ->
       tree_ok O reg r rv t /\ top_forbids_root O r rv t.
   Proof. exact (nosolution_tree_is_proof O L veqb reg r rv). Qed.
 
